@@ -2,11 +2,11 @@ SPECIFICATION Spec
 CONSTANTS
   Tokens <- ResolveTokens
   Tok <- TokTable
+  ArgSet <- Args_ResolveTokens_4
   FormatNames <- Names
   Files <- FileTable
   Lib <- LibTable
   StdinContent = "cy"
-  MaxArgs = 4
   StdoutKinds = {"pipe"}
 INVARIANT CliInv
 INVARIANT Export
